@@ -6,8 +6,8 @@ from vf.tape import Fail, notrace
 
 PROPERTY = 'C16'
 SLOTS = [('e0', '/'), ('e0', '/a'), ('e1', '/')]
-KINDS = ['connect', 'save', 'save-empty', 'block', 'nested-block', 'block-left-by-exception', 'client-disconnect',
-         'server-disconnect']
+KINDS = ['connect', 'save', 'save-empty', 'block', 'nested-block', 'block-left-by-exception', 'save-inside-block',
+         'client-disconnect', 'server-disconnect']
 OPS = [(k, i) for k in KINDS for i in range(len(SLOTS))] + [('lose-reopen', 'e0'), ('lose-reopen', 'e1')]
 
 
@@ -128,6 +128,22 @@ def h(t, part):
             model[sid] = dict(model[sid])
             model[sid]['o%d' % step] = v
             model[sid]['i%d' % step] = 7
+            saved_once = True
+        elif kind == 'save-inside-block':
+            v = t.int(-3, 3)
+            if asyncio_:
+                async def go2():
+                    async with w.s.session(sid, namespace=ns) as sess:
+                        sess['b%d' % step] = v
+                        await w.s.save_session(sid, {'replaced': step}, namespace=ns)
+                w.call(go2())
+            else:
+                with w.s.session(sid, namespace=ns) as sess:
+                    sess['b%d' % step] = v
+                    w.s.save_session(sid, {'replaced': step}, namespace=ns)
+            # leaving the block stores the block's dictionary
+            model[sid] = dict(model[sid])
+            model[sid]['b%d' % step] = v
             saved_once = True
         elif kind == 'block-left-by-exception':
             v = t.int(-3, 3)
